@@ -189,6 +189,7 @@ pub fn run(ctx: &Ctx) -> (Report, Meta) {
     .floor("status_UserInterrupt", 20);
     let g = GenOpts {
         stiff_for_implicit: true,
+        allow_min_step: true,
         allow_tiny_span: true,
         allow_huge: true,
         allow_inf: true,
